@@ -120,6 +120,7 @@ impl<'a> Choices<'a> {
 pub struct LayoutInfo {
     pub fragmented_chain: bool,
     pub red_node_in_tree_of_3: bool,
+    pub internal_red_level: bool,
     pub unallocated_gap: bool,
     pub difat_sectors: usize,
     pub fat_sectors: usize,
@@ -234,23 +235,38 @@ pub fn synthesize_opts(model: &Model, version: u8, choices: &[u16], surplus_fat:
             let m = ks.len();
             let full_levels = (usize::BITS - (m + 1).leading_zeros() - 1) as usize; // floor(log2(m+1))
             let perfect = (1usize << full_levels) - 1 == m;
-            fn build(ks: &[usize], lo: usize, hi: usize, depth: usize, red_depth: Option<usize>, upper: bool, slot_of: &[usize], left: &mut [u32], right: &mut [u32], color: &mut [u8]) -> u32 {
+            fn build(ks: &[usize], lo: usize, hi: usize, depth: usize, red_levels: &[bool], upper: bool, slot_of: &[usize], left: &mut [u32], right: &mut [u32], color: &mut [u8]) -> u32 {
                 if lo >= hi {
                     return NOSTREAM;
                 }
                 let len = hi - lo;
                 let mid = if upper { lo + len / 2 } else { lo + (len - 1) / 2 };
                 let id = ks[mid];
-                color[id] = if Some(depth) == red_depth { 0 } else { 1 };
-                left[id] = build(ks, lo, mid, depth + 1, red_depth, upper, slot_of, left, right, color);
-                right[id] = build(ks, mid + 1, hi, depth + 1, red_depth, upper, slot_of, left, right, color);
+                color[id] = if red_levels.get(depth).copied().unwrap_or(false) { 0 } else { 1 };
+                left[id] = build(ks, lo, mid, depth + 1, red_levels, upper, slot_of, left, right, color);
+                right[id] = build(ks, mid + 1, hi, depth + 1, red_levels, upper, slot_of, left, right, color);
                 slot_of[id] as u32
             }
-            let red_depth = if perfect { None } else { Some(full_levels) };
+            // Levels 0..full_levels-1 are complete. The incomplete deepest level (if any)
+            // must be red; any complete level >= 1 may be red as a whole as long as no two
+            // red levels are adjacent (every root-to-leaf path then has the same number of
+            // black nodes): this gives internal red nodes with two children.
+            let mut red_levels = vec![false; full_levels + 1];
+            if !perfect {
+                red_levels[full_levels] = true;
+            }
+            for d in (1..full_levels).rev() {
+                if !red_levels[d + 1] && ch.flag(1, 3) {
+                    red_levels[d] = true;
+                }
+            }
             let upper = ch.flag(1, 2);
-            child[p] = build(ks, 0, m, 0, red_depth, upper, &slot_of, &mut left, &mut right, &mut color);
-            if m >= 3 && !perfect {
+            child[p] = build(ks, 0, m, 0, &red_levels, upper, &slot_of, &mut left, &mut right, &mut color);
+            if m >= 3 && red_levels.iter().any(|r| *r) {
                 info.red_node_in_tree_of_3 = true;
+            }
+            if red_levels[..full_levels].iter().any(|r| *r) {
+                info.internal_red_level = true;
             }
         }
     }
